@@ -63,6 +63,9 @@ def scenarios():
         out.append(("json-lines", {"limit": limit}, lambda limit=limit: JSONSerializer(use_lines=True, limit=limit), [{"a": 1}, [1, 2], "s", 5]))
     out.append(("base64", {}, lambda: Base64EncoderSerializer(StringLineSerializer(), checksum=True, limit=128), ["hello", "w", "xyz" * 5]))
     out.append(("line-crlf", {}, lambda: StringLineSerializer("CRLF", limit=16), ["abc", "d\r", "\ne", "ff"]))
+    # a payload of exactly `limit` bytes is accepted by the copying path under every chunking (the buffered path, whose buffer is
+    # `limit` bytes, cannot hold it: not "safely within" the limit) - checked on the copying path only
+    out.append(("line-crlf-at-limit", {"copy_only": True}, lambda: StringLineSerializer("CRLF", limit=8), ["x" * 8, "ab", "y" * 7]))
     out.append(("line-idna", {}, lambda: StringLineSerializer("LF", encoding="idna", limit=32), ["abc", "www.example.org", "b"]))
     out.append(("line-utf16", {}, lambda: StringLineSerializer("LF", encoding="utf-16-le", limit=32), ["ab", "c"]))
     out.append(("struct", {}, lambda: NamedTupleStructSerializer(Pt, {"x": "h", "y": "b"}), [Pt(1, 2), Pt(-3, 4), Pt(300, 0)]))
@@ -101,7 +104,8 @@ def oneshot():
         bads = [BAD_FRAMES[name]] if name in BAD_FRAMES else []
         if packets:
             d = ser.serialize(packets[0])
-            bads += [d + d] if name not in ("line-crlf", "line-idna", "line-utf16", "json-lines", "base64") else []  # two packets in one datagram
+            # two packets in one datagram (not for the line-based one-shot codecs: two lines without a terminator are one valid line)
+            bads += [d + d] if not name.startswith("line-") and name not in ("json-lines", "base64") else []
             bads += [d[:-1]] if name in ("filebased", "struct", "struct-strings", "zlib", "bz2") else []  # truncated datagram
         for b in bads:
             cases += 1
@@ -205,7 +209,7 @@ def check(name, make, packets, stream, cuts, hint, want):
     got, left = run_copy(ser, stream, cuts)
     if got != want or (left is not None and left != b"" and all(o[0] == "P" for o in want)):
         return {"path": "copy", "got": got, "want": want, "leftover": None if left is None else left.hex()}
-    if isinstance(ser, BufferedIncrementalPacketSerializer):
+    if isinstance(ser, BufferedIncrementalPacketSerializer) and name != "line-crlf-at-limit":
         got = run_buf(make(), stream, cuts, hint)
         if got != want:
             return {"path": "buffered", "got": got, "want": want, "hint": hint}
